@@ -242,14 +242,16 @@ pub fn cost_class(addr: u32) -> u8 {
     }
 }
 
-// ---------------------------------------------------------------- UTF-8 (RFC 3629), up to 4 bytes
+// ---------------------------------------------------------------- UTF-8 (RFC 3629), up to 8 bytes
 
-/// True iff the first `len` (<= 4) bytes of `b` are well-formed UTF-8.
-pub fn valid_utf8_4(b: &[u8; 4], len: usize) -> bool {
+pub const UTF8_MAX: usize = 8;
+
+/// True iff the first `len` (<= 8) bytes of `b` are well-formed UTF-8.
+pub fn valid_utf8(b: &[u8; UTF8_MAX], len: usize) -> bool {
     let mut i = 0usize;
     let mut ok = true;
     let mut guard = 0;
-    while i < len && guard < 4 {
+    while i < len && guard < UTF8_MAX {
         guard += 1;
         let x = b[i];
         let rest = len - i;
